@@ -15,8 +15,8 @@ CONSTANTS MaxTokens, MaxDepth,
           Keys          \* indices into KeyCat
 
 ScalarCat == << "0", "-0", "12", "-3.25", "0.10", "1.50", "true", "false", "null", "\"\"", "\"a\"",
-                "\"q\\\"b\\\\s\\/\"", "\"\\b\\f\\n\\r\\t\"", "\"\\u00e9\\u0041\"", "\"\\ud83d\\ude00\"", "\"<NONASCII-1>\"", "\"a.b\"", "\"1e5\"", "\"// {x}\"", "\"@t\"" >>
-KeyCat    == << "\"a\"", "\"b\"", "\"\"", "\"a\\\"b\"", "\"a\\\\b\"", "\"a\\nb\"", "\"k\\u00e9\"", "\"<NONASCII-2>\"", "\"a b\"", "\"@k\"", "\"a/b\"" >>
+                "\"q\\\"b\\\\s\\/\"", "\"\\b\\f\\n\\r\\t\"", "\"\\u00e9\\u0041\"", "\"\\ud83d\\ude00\"", "\"<NONASCII-1>\"", "\"a.b\"", "\"1e5\"", "\"// {x}\"", "\"@t\"", "\"\\u001f\\u0010\\u0000\"" >>
+KeyCat    == << "\"a\"", "\"b\"", "\"\"", "\"a\\\"b\"", "\"a\\\\b\"", "\"a\\nb\"", "\"k\\u00e9\"", "\"<NONASCII-2>\"", "\"a b\"", "\"@k\"", "\"a/b\"", "\"k\\u001fz\"", "\"\\u0001\\b\\f\"" >>
 
 VARIABLES stk,     \* open containers: records [k |-> "o"|"a", n |-> members so far, used |-> keys used]
           out,     \* tokens emitted: "{" "}" "[" "]" <<"key", i>> <<"scalar", i>>
